@@ -156,7 +156,6 @@ pub fn map_json(m: Option<SourceMap>) -> Value {
 
 pub fn observe(v: &Value) -> Value {
   let what: Vec<String> = v["what"].as_array().map(|a| a.iter().map(|x| x.as_str().unwrap().to_string()).collect()).unwrap_or_default();
-  let want = |w: &str| what.is_empty() || what.iter().any(|x| x == w);
   let r = catch_unwind(AssertUnwindSafe(|| {
     let mut src = build(&v["tree"]);
     // call history before the observations (C10 / C14): names as in jobs/streams.py
@@ -217,8 +216,9 @@ pub fn observe(v: &Value) -> Value {
     };
     // observations are made in the order the counterexample lists them (cache state depends on it)
     let mut source: Option<Value> = None;
+    let mut views = serde_json::Map::new();
     let order: Vec<String> = if what.is_empty() {
-      ["source", "c1f0", "c0f0", "c1f1", "c0f1", "map1", "map0"].iter().map(|s| s.to_string()).collect()
+      ["source", "c1f0", "c0f0", "c1f1", "c0f1", "map1", "map0", "rope", "buffer", "size", "writer"].iter().map(|s| s.to_string()).collect()
     } else {
       what.clone()
     };
@@ -239,6 +239,66 @@ pub fn observe(v: &Value) -> Value {
           if let Some(x) = guard(w, &mut || map_json(src.map(&MapOptions::new(c)))) {
             maps.insert(if c { "c1".to_string() } else { "c0".to_string() }, x);
           }
+        }
+        "rope" => {
+          if let Some(x) = guard("rope", &mut || json!(src.rope().to_string())) {
+            views.insert("rope".into(), x);
+          }
+        
+        }
+        "buffer" => {
+          if let Some(x) = guard("buffer", &mut || json!(String::from_utf8_lossy(&src.buffer()).to_string())) {
+            views.insert("buffer".into(), x);
+          }
+          if let Some(x) = guard("buffer", &mut || json!(src.buffer().to_vec())) {
+            views.insert("buffer_bytes".into(), x);
+          }
+        
+        }
+        "size" => {
+          if let Some(x) = guard("size", &mut || json!(src.size())) {
+            views.insert("size".into(), x);
+          }
+        
+        }
+        "writer" => {
+          if let Some(x) = guard("writer", &mut || {
+            let mut w: Vec<u8> = Vec::new();
+            src.to_writer(&mut w).unwrap();
+            json!({"s": String::from_utf8_lossy(&w).to_string(), "b": w})
+          }) {
+            views.insert("writer".into(), x["s"].clone());
+            views.insert("writer_bytes".into(), x["b"].clone());
+          }
+        
+        }
+        "writerfail" => {
+          let k = v["writer_limit"].as_u64().unwrap_or(0) as usize;
+          if let Some(x) = guard("writerfail", &mut || {
+            struct W {
+              k: usize,
+              buf: Vec<u8>,
+            }
+            impl std::io::Write for W {
+              fn write(&mut self, b: &[u8]) -> std::io::Result<usize> {
+                if self.buf.len() >= self.k && !b.is_empty() {
+                  return Err(std::io::Error::new(std::io::ErrorKind::Other, "writer failed"));
+                }
+                let n = b.len().min(self.k - self.buf.len());
+                self.buf.extend_from_slice(&b[..n]);
+                Ok(n)
+              }
+              fn flush(&mut self) -> std::io::Result<()> {
+                Ok(())
+              }
+            }
+            let mut w = W { k, buf: Vec::new() };
+            let r = src.to_writer(&mut w);
+            json!({"written": String::from_utf8_lossy(&w.buf).to_string(), "written_bytes": w.buf, "err": r.is_err(), "k": k})
+          }) {
+            views.insert("writerfail".into(), x);
+          }
+        
         }
         _ => {}
       }
@@ -262,62 +322,6 @@ pub fn observe(v: &Value) -> Value {
       }));
       if let Ok(x) = r {
         subs.insert(name, x);
-      }
-    }
-    let mut views = serde_json::Map::new();
-    if want("rope") {
-      if let Some(x) = guard("rope", &mut || json!(src.rope().to_string())) {
-        views.insert("rope".into(), x);
-      }
-    }
-    if want("buffer") {
-      if let Some(x) = guard("buffer", &mut || json!(String::from_utf8_lossy(&src.buffer()).to_string())) {
-        views.insert("buffer".into(), x);
-      }
-      if let Some(x) = guard("buffer", &mut || json!(src.buffer().to_vec())) {
-        views.insert("buffer_bytes".into(), x);
-      }
-    }
-    if want("size") {
-      if let Some(x) = guard("size", &mut || json!(src.size())) {
-        views.insert("size".into(), x);
-      }
-    }
-    if want("writer") {
-      if let Some(x) = guard("writer", &mut || {
-        let mut w: Vec<u8> = Vec::new();
-        src.to_writer(&mut w).unwrap();
-        json!({"s": String::from_utf8_lossy(&w).to_string(), "b": w})
-      }) {
-        views.insert("writer".into(), x["s"].clone());
-        views.insert("writer_bytes".into(), x["b"].clone());
-      }
-    }
-    if want("writerfail") {
-      let k = v["writer_limit"].as_u64().unwrap_or(0) as usize;
-      if let Some(x) = guard("writerfail", &mut || {
-        struct W {
-          k: usize,
-          buf: Vec<u8>,
-        }
-        impl std::io::Write for W {
-          fn write(&mut self, b: &[u8]) -> std::io::Result<usize> {
-            if self.buf.len() >= self.k && !b.is_empty() {
-              return Err(std::io::Error::new(std::io::ErrorKind::Other, "writer failed"));
-            }
-            let n = b.len().min(self.k - self.buf.len());
-            self.buf.extend_from_slice(&b[..n]);
-            Ok(n)
-          }
-          fn flush(&mut self) -> std::io::Result<()> {
-            Ok(())
-          }
-        }
-        let mut w = W { k, buf: Vec::new() };
-        let r = src.to_writer(&mut w);
-        json!({"written": String::from_utf8_lossy(&w.buf).to_string(), "written_bytes": w.buf, "err": r.is_err(), "k": k})
-      }) {
-        views.insert("writerfail".into(), x);
       }
     }
     let mut out = json!({"streams": streams, "maps": maps, "tree": v["tree"], "panics": panics, "subs": subs, "views": views});
@@ -400,8 +404,16 @@ pub fn eqhash(v: &Value) -> Value {
     let c: BoxSource = std::sync::Arc::from(dyn_clone::clone_box(a.as_ref()));
     let ca = c == a.clone();
     let hc = hash_of(&c);
+    let obs = |x: &BoxSource| {
+      json!({"source": x.source().to_string(), "views": {"size": x.size()},
+             "maps": {"c1": map_json(x.map(&MapOptions::new(true)))},
+             "streams": {"c1f0": stream(x, true, false)}})
+    };
+    // a (after its history) first, then the untouched b
+    let oa = obs(&a);
+    let ob = obs(&b);
     json!({"ab": ab, "ba": ba, "hash_a": ha.to_string(), "hash_b": hb.to_string(), "clone_eq": ca, "hash_clone": hc.to_string(),
-           "source_a": a.source().to_string(), "source_b": b.source().to_string(), "source_clone": c.source().to_string()})
+           "source_a": a.source().to_string(), "source_b": b.source().to_string(), "source_clone": c.source().to_string(), "obs_a": oa, "obs_b": ob})
   }));
   match r {
     Ok(x) => x,
